@@ -356,6 +356,7 @@ func Main(ck *Check, args []string) int {
 			tier = f.Tier
 		}
 		rkey = f.Key
+		os.Setenv("VERIF_REPLAY_HUMAN", "1")
 	}
 	if rkey != "" || worker != "" {
 		return runWorker(ck, tier, worker, skip, rkey)
@@ -388,6 +389,17 @@ func runWorker(ck *Check, tier, worker string, skip int64, rkey string) int {
 	b, _ := json.Marshal(e.st)
 	fmt.Fprintf(e.out, "E %s\n", b)
 	e.out.Flush()
+	if rkey != "" && os.Getenv("VERIF_REPLAY_HUMAN") != "" {
+		if e.st.Evaluations == 0 {
+			fmt.Printf("REPLAY: no case with key %q exists in the current enumeration\n", rkey)
+			return 2
+		}
+		if n := e.st.Counters["failing_cases_total"]; n > 0 {
+			fmt.Printf("REPLAY: the case still fails (%d failure(s), see the F lines above)\n", n)
+			return 1
+		}
+		fmt.Println("REPLAY: the case passes")
+	}
 	return 0
 }
 
